@@ -112,7 +112,7 @@ func init() {
 		Explain: "Decides structural necessary conditions on every path of consumer.go: a ConsumerMessage is only built for offsets ≥ child.offset and child.offset is then advanced to exactly that offset+1 (C03.advance); every field of the delivered message comes from the corresponding field of the parsed record/message, and the fetch request asks for (topic, partition, child.offset, fetchSize) of the same child (C03.fields/request); " +
 			"the fetch/parse hand-shake: one acks.Done per response per subscription, Add→feed→Wait→handleResponses order (C03.acks); every subscription result class is redispatched exactly once and dropped from the broker worker, a timed-out feeder resubscribes itself (C03.redispatch); tabled senders on messages and writers of child.offset (C03.who); a response holding only a truncated record always changes something before the next fetch — the fetch size doubles, or at the configured maximum ErrMessageTooLarge is reported and the record stepped over; the size is reset only after records arrived (C03.partial-progress). " +
 			"NOT covered: base-offset arithmetic of v1 wrappers, the int32 overflow clamp of the doubled fetch size, progress under faults in general, decompression.",
-		Rules: []func(*Ctx){c03Advance, c03ResponseSkip, c03PartialProgress, c03Fields, c03Request, c03Acks, c03Redispatch, c03Who},
+		Rules: []func(*Ctx){c03Advance, c03ResponseSkip, c03PartialProgress, c03EmptyEntry, c03Fields, c03Request, c03Acks, c03Redispatch, c03Who},
 	})
 }
 
@@ -221,6 +221,53 @@ func c03PartialProgress(c *Ctx) {
 	for _, s := range Info(fn).Find(StoreTo(FieldLoad("Config.Consumer.Fetch.Default"), "partitionConsumer.fetchSize")) {
 		g, path := reg.Guarded(s, Cmp{token.NEQ, nrecs, ConstInt(0)})
 		c.Check(g, rule, fn, "reset-only-with-records", s.Instr(), "the fetch size returns to the default only after a response with records", "the grown fetch size is reset although no record was received: the growth never takes effect", path)
+	}
+}
+
+// c03EmptyEntry: parseRecords steps over one offset when a batch yields no message (all its records are
+// invisible).  A records entry that holds no complete record at all — the truncated tail of a response — must
+// therefore not reach it unless it is the only entry of the block (where parseResponse handles it through
+// isPartial()); FetchResponseBlock.decode is what guarantees that.
+func c03EmptyEntry(c *Ctx) {
+	p := c.P
+	rule := "C03.empty-entry"
+	c.Doc(rule, "FetchResponseBlock.decode: a decoded records entry is appended to RecordsSet only if it holds at least one complete record (numRecords() > 0) or the set is still empty")
+	c.Floor(rule, 1)
+	fn := c.NeedFn(rule, "FetchResponseBlock.decode")
+	if fn == nil {
+		return
+	}
+	fi := Info(fn)
+	set := FieldLoad("FetchResponseBlock.RecordsSet")
+	isAppend := func(it Item) bool {
+		st, ok := it.In.(*ssa.Store)
+		if !ok || !FieldAddrOf("FetchResponseBlock.RecordsSet")(st.Addr) {
+			return false
+		}
+		cl, ok := st.Val.(*ssa.Call)
+		if !ok {
+			return false
+		}
+		b, ok := cl.Call.Value.(*ssa.Builtin)
+		return ok && b.Name() == "append"
+	}
+	apps := fi.Find(isAppend)
+	if len(apps) == 0 {
+		c.Unresolved(rule, "append to FetchResponseBlock.RecordsSet in decode")
+		return
+	}
+	n := p.ResultOf(0, "Records.numRecords")
+	safe := AnyOf{Cmp{token.GTR, n, ConstInt(0)}, Cmp{token.EQL, LenOf(set), ConstInt(0)}}
+	for _, a := range apps {
+		reg := WholeFn(fn)
+		if l := fi.InnermostLoop(itemBlock(a)); l != nil {
+			reg = fi.Iteration(l)
+		}
+		r2 := *reg
+		r2.Cut = func(from, to *ssa.BasicBlock) bool { return Establishes(from, to, safe) }
+		it, path := r2.Reach(IsItem(a), nil)
+		c.Check(it.IsZero(), rule, fn, "kept-only-with-records-or-alone", a.Instr(), "an entry is kept only if it has a complete record or is the block's first entry",
+			"a records entry without a single complete record (the truncated tail of the response) can be kept after complete batches: parseRecords then delivers nothing for it and steps child.offset over the first undelivered record, which is never delivered", path)
 	}
 }
 
